@@ -351,6 +351,17 @@ Example own_flow_accepted :
   oauth_callback false false ex_key r = CbOk {| s_email := [117; 64; 120]; s_upstream := [104] |} [47; 97].
 Proof. split; vm_compute; reflexivity. Qed.
 
+(* ... also under the empty-id guard (the hypotheses of the full theorem are satisfiable), while the
+   two-sessions request of the refutation is then answered 400 *)
+Example own_flow_accepted_strict :
+  let evs := [EStart [47; 97]] in
+  let f := {| f_sid := 1; f_redirect := [47; 97] |} in
+  let r := ex_req (WEnc 0 (Seal ex_key 2 (PFlow f))) (Some (WEnc 0 (Seal ex_key 1 (PFlow f)))) in
+  admissible true true ex_key init_world (evs ++ [ECallback r]) = true /\
+  oauth_callback true true ex_key r = CbOk {| s_email := [117; 64; 120]; s_upstream := [104] |} [47; 97] /\
+  oauth_callback true true ex_key ex_confused = CbPage 400.
+Proof. repeat split; vm_compute; reflexivity. Qed.
+
 (* flows started by different requests are different records, even for the same URL *)
 Lemma started_flows_distinct canon strict key evs :
   NoDup (map f_sid (w_flows (run canon strict key init_world evs))).
